@@ -217,3 +217,4 @@ TEXT["C20"]["level"] += (" Hierarchy listings (children, child_*, Node::open) ar
 TEXT["C02"]["level"] += (" The packbits partial decoder is a proved stage of the chain theorem too (Props/C02PackBits: packbitsPD_serves for any rank, region list, component count, bit range and padding; chains transpose*;packbits;bytes-to-bytes*), tied by running the model on the raw stored chunks of real packbits arrays (c02p).")
 TEXT["C20"]["level"] += (" The listings are programs of the operation-level model as well (Props/C20List: a fault at any position is an error for every listing method, and a listing that succeeds under any failing set is complete).")
 TEXT["C15"]["level"] += (" The bounds test of a shard index entry is modelled on 64-bit words as written (checked addition) and proved equal to the unbounded test for all values; an accepted entry denotes a slice inside the value (Props/C15Entry).")
+TEXT["C03"]["level"] += (" fixedscaleoffset has a model and theorems now (Props/C03Fso: the rational specification is within 1/(2*scale) with equality exactly at ties; the float computation equals it whenever its intermediates are representable; integer types with scale 1 are lossless exactly when x-offset fits both types; the advertised fill value, data type and shape are those of the encoding), with encoded bytes and decoded values predicted exactly for the integer class.")
